@@ -44,7 +44,26 @@ pub open spec fn submit_post(q: int, pid: int, force: bool, pre: &World, post: &
     &&& (!ok ==> post.trace == pre.trace)
     &&& (pre.closed.contains(q) ==> !ok)
 }
-impl<T> MpscReceiver<T> { pub uninterp spec fn q(&self) -> int; }
+impl<T> MpscReceiver<T> {
+    pub uninterp spec fn q(&self) -> int;
+    // Stream::poll_next on the receiving half: Ready(Some(head)) removes exactly the head of this queue, Ready(None) only when closed
+    // and empty, Pending removes nothing
+    #[verifier::external_body]
+    pub fn poll_next(&mut self, ctx: &mut TaskCx, Tracked(w): Tracked<&mut World>) -> (r: Poll<Option<T>>)
+        ensures final(self).q() == old(self).q(), recv_post(old(self).q(), old(w), final(w), &r)
+    { unimplemented!() }
+}
+#[verifier::external_body] pub struct TaskCx { x: u8 }          // core::task::Context<'_>
+pub enum Poll<T> { Ready(T), Pending }                          // core::task::Poll
+// what one poll of the receiving closure may do: pop the head and hand it out, report the end, or nothing at all
+pub open spec fn recv_post<T>(q: int, pre: &World, post: &World, r: &Poll<Option<T>>) -> bool {
+    &&& post.lc == pre.lc && post.cells =~= pre.cells && post.last_pid == pre.last_pid && post.last_slot == pre.last_slot && shared_moved(sh(pre), sh(post))
+    &&& match r {
+        Poll::Ready(Some(e)) => post.trace == pre.trace.push(Ev::Pop { chan: q, pid: pid_of(e) }),
+        Poll::Ready(None) => post.trace == pre.trace.push(Ev::PopEnd { chan: q }),
+        Poll::Pending => post.trace == pre.trace,
+    }
+}
 #[verifier::external_body]
 pub fn mpsc_channel<T>(buffer: usize) -> (r: (MpscSender<T>, MpscReceiver<T>))
     ensures r.0.q() == r.1.q(), queue_cap(r.0.q()) == Some(buffer), fresh_queue(r.0.q())
